@@ -23,7 +23,7 @@ func init() {
 		Level: "exploration",
 		Rule: "controlled schedules: generated scripts of start / finish-normally / finish-by-panic over 1-4 sources and limits 0-5 with handlers that block until released, so the driver knows the exact in-flight count at every arrival (expected decision: admit iff count < max; a gauge inside the handler asserts the maximum); " +
 			"free-running: 16 goroutines behind a barrier on 1-2 sources with handlers that hold their slot for a random number of yields, recorded acquire/release histories checked for linearizability (porcupine, partitioned by source) against a counter model; after quiescence max probes per source must all be admitted concurrently; " +
-			"a fifth of the controlled drivers use the built-in client.ip extractor over a table of peers (IPv4 with and without port, IPv6, zoned link-local with equal prefixes), the others request.header.X in four spellings; handlers rewrite or delete the identifying header before returning; " +
+			"a fifth of the controlled drivers use the built-in client.ip extractor over a table of peers (IPv4 with and without port, IPv6, zoned link-local with equal prefixes), a seventh the built-in request.host extractor over a table of Hosts (names, IPv4, bracketed IPv6 literals, with and without port), the others request.header.X in four spellings; handlers rewrite or delete the identifying header before returning; " +
 			"non-trivial = script/history with at least one rejection at the limit and observed concurrency equal to the limit; distinct by (limit, script)",
 		Assumptions: []string{"each request counts one unit (header-based extractor)", "porcupine Unknown (timeout) is inconclusive"},
 		Parts: []Part{
@@ -46,6 +46,7 @@ type connDriver struct {
 	gauge   map[string]*atomic.Int64
 	maxSeen map[string]int64
 	byIP    bool // sources are told apart by the connection's peer address (built-in client.ip extractor)
+	byHost  bool // sources are told apart by the Host they ask for (built-in request.host extractor)
 	// header mode: the identifying header values are long and share a long prefix (bearer tokens of one issuer)
 	longNames bool
 	cancels   map[int]context.CancelFunc
@@ -60,6 +61,23 @@ const connLongPrefix = "Bearer eyJhbGciOiJSUzI1NiIsInR5cCI6IkpXVCIsImtpZCI6InByb
 
 // connPeers: peer addresses as net/http reports them; every source name sN maps to a distinct host.
 var connPeers = []string{"10.0.0.1", "[fe80::1%eth0]", "10.0.0.2", "[fe80::2%eth0]", "[2001:db8::1]", "[fe80::3%wlan0]", "[::1]", "[2001:db8::2]", "192.168.1.10"}
+
+// connHosts: Host values as clients send them; every source name sN maps to a distinct Host string (a Host with and
+// without a port are different strings and therefore different sources for request.host).
+var connHosts = []string{"api.example.com", "[2001:db8::1]", "[2001:db8::2]", "api.example.com:8080", "[2001:db8::1]:8443", "10.0.0.1", "10.0.0.1:80", "[2001:db8:0:1::9]", "[fe80::1]"}
+
+func connHost(src string) string {
+	k := 0
+	for _, ch := range src {
+		if ch >= '0' && ch <= '9' {
+			k = k*10 + int(ch-'0')
+		}
+	}
+	if k < len(connHosts) {
+		return connHosts[k]
+	}
+	return sfmt("tenant-%d.example.com", k)
+}
 
 func connPeer(src string, id int) string {
 	k := 0
@@ -125,6 +143,9 @@ func newConnDriver(limit int64) *connDriver {
 	if connExtractorSeq%5 == 4 {
 		variable = "client.ip"
 		d.byIP = true
+	} else if connExtractorSeq%7 == 3 {
+		variable = "request.host"
+		d.byHost = true
 	} else if connExtractorSeq%3 == 1 {
 		d.longNames = true
 	}
@@ -156,6 +177,9 @@ func newConnDriver(limit int64) *connDriver {
 			}
 			if d.byIP {
 				req.RemoteAddr = connPeer(src, 1000+k)
+			}
+			if d.byHost {
+				req.Host = connHost(src)
 			}
 			d.otherIn.Add(1)
 			d.otherOut.Add(1)
@@ -199,6 +223,9 @@ func (d *connDriver) start(id int, src string) (admitted bool, status int) {
 		req.Header.Set("X-Id", sfmt("%d", id))
 		if d.byIP {
 			req.RemoteAddr = connPeer(src, id)
+		}
+		if d.byHost {
+			req.Host = connHost(src)
 		}
 		{
 			// every request has a cancellable context, as under a real server; the driver may cancel it mid-flight
@@ -726,6 +753,9 @@ func c04SlowReject(c *Ctx) {
 			req.Header.Set("X-Id", sfmt("%d", id))
 			if d.byIP {
 				req.RemoteAddr = connPeer(src, id)
+			}
+			if d.byHost {
+				req.Host = connHost(src)
 			}
 			go func() {
 				defer close(done)
